@@ -13,10 +13,12 @@
 //     behind no file that it created itself (statement, second half). Files
 //     abandoned by the stopped run are counted in the evidence, not judged.
 //
-// The stop is simulated in-process (panic + frozen file system); a subset, and
-// every violating case up to a per-cell quota, is repeated with a child
-// process that really exits at the crash point, and the two directory states
-// must agree (a disagreement is a harness error, exit 2).
+// The enumeration runs in-process on the in-memory file system of the shim
+// (stop = panic + frozen file system; the real disk of this machine needs
+// milliseconds per replace-by-rename). A subset, and every violating case up
+// to a per-cell quota, is repeated on the REAL disk with a child process that
+// really exits at the crash point; the two directory states (names, mode
+// bits, bytes) must be identical (a disagreement is a harness error, exit 2).
 package main
 
 import (
@@ -104,15 +106,50 @@ func dirState(dir string) []string {
 	return out
 }
 
-func names(dir string) map[string]bool {
-	ents, err := os.ReadDir(dir)
-	if err != nil {
-		report.Fatal("readdir %s: %v", dir, err)
+const memDir = "/c36/case"
+
+// freshMem empties the in-memory file system and stores the original file.
+func freshMem(content []byte, mode os.FileMode) (dir, path string) {
+	vos.VerifMemClear()
+
+	path = filepath.Join(memDir, fileName)
+	vos.VerifMemPut(path, content, mode)
+
+	return memDir, path
+}
+
+// memState is dirState for the in-memory file system.
+func memState(dir string) []string {
+	var out []string
+
+	for _, p := range vos.VerifMemList() {
+		if filepath.Dir(p) != dir {
+			continue
+		}
+
+		b, _ := vos.VerifMemGet(p)
+		m, _ := vos.VerifMemMode(p)
+		name := filepath.Base(p)
+
+		if tempName.MatchString(name) {
+			name = fileName + ".langlint-<N>"
+		}
+
+		out = append(out, fmt.Sprintf("%s %04o %q", name, m.Perm(), b))
 	}
 
+	sort.Strings(out)
+
+	return out
+}
+
+func memNames(dir string) map[string]bool {
 	out := map[string]bool{}
-	for _, e := range ents {
-		out[e.Name()] = true
+
+	for _, p := range vos.VerifMemList() {
+		if filepath.Dir(p) == dir {
+			out[filepath.Base(p)] = true
+		}
 	}
 
 	return out
@@ -248,7 +285,7 @@ func (c *checker) realExit(content []byte, mode os.FileMode, k int) (dir, path s
 // judge applies the oracle to the directory a stopped (or complete) run left.
 // It returns the cells violated.
 func (c *checker) judge(dir, path string, content, formatted []byte, formatOK bool, mode os.FileMode, k int, how string, crashed bool, crash vos.VerifCrash, log []string) []string {
-	state := dirState(dir)
+	state := memState(dir)
 	w := witness{Content: string(content), Mode: fmt.Sprintf("%04o", mode), Crash: k, How: how, Ops: log, Before: crash.Op, State: state}
 	size := len(content)*100 + k
 
@@ -265,13 +302,11 @@ func (c *checker) judge(dir, path string, content, formatted []byte, formatOK bo
 		stop = "a stop at " + crash.String()
 	}
 
-	got, err := os.ReadFile(path)
+	got, exists := vos.VerifMemGet(path)
 
 	switch {
-	case err != nil && os.IsNotExist(err):
+	case !exists:
 		viol("path-missing:"+when, fmt.Sprintf("after %s the path %s does not exist (neither original nor formatted content)", stop, fileName))
-	case err != nil:
-		report.Fatal("read target: %v", err)
 	case bytes.Equal(got, content), formatOK && bytes.Equal(got, formatted):
 	default:
 		kind := "other"
@@ -288,7 +323,7 @@ func (c *checker) judge(dir, path string, content, formatted []byte, formatOK bo
 
 	// The later run (statement: "a later successful run leaves no temporary or
 	// backup files behind"). Judged: the files that run itself created.
-	before := names(dir)
+	before := memNames(dir)
 
 	crashed2, _, err2, _ := lint(path, 0)
 	if crashed2 {
@@ -310,7 +345,7 @@ func (c *checker) judge(dir, path string, content, formatted []byte, formatOK bo
 		return cells
 	}
 
-	after := names(dir)
+	after := memNames(dir)
 	stale := 0
 
 	for name := range after {
@@ -340,7 +375,7 @@ func (c *checker) oneCase(content []byte, mode os.FileMode, onlyK int, realAll b
 	formatOK := ferr == nil
 
 	// Zero-crash run: numbers the operations.
-	dir, path := c.freshDir(content, mode)
+	dir, path := freshMem(content, mode)
 
 	crashed, _, err, log := lint(path, 0)
 	if crashed {
@@ -348,6 +383,7 @@ func (c *checker) oneCase(content []byte, mode os.FileMode, onlyK int, realAll b
 	}
 
 	n := len(log)
+	cstate := memState(dir)
 
 	if (err == nil) != formatOK {
 		report.Fatal("lintFile error %v but Format error %v for %q", err, ferr, content)
@@ -365,7 +401,22 @@ func (c *checker) oneCase(content []byte, mode os.FileMode, onlyK int, realAll b
 		}
 	}
 
-	_ = os.RemoveAll(dir)
+	if realAll && onlyK == 0 {
+		// The complete run, on the real disk, in a child process.
+		rdir, _, fired := c.realExit(content, mode, 0)
+		if fired {
+			report.Fatal("child without crash point exited as if crashed")
+		}
+
+		rstate := dirState(rdir)
+		_ = os.RemoveAll(rdir)
+
+		if strings.Join(rstate, "\n") != strings.Join(cstate, "\n") {
+			report.Fatal("complete run in memory and on the real disk disagree for %q:\n in-memory %q\n real disk %q", content, cstate, rstate)
+		}
+
+		c.r.Add("complete_runs_confirmed_on_the_real_disk", 1)
+	}
 
 	rewrite := n > 1
 
@@ -374,7 +425,7 @@ func (c *checker) oneCase(content []byte, mode os.FileMode, onlyK int, realAll b
 			continue
 		}
 
-		dir, path := c.freshDir(content, mode)
+		dir, path := freshMem(content, mode)
 
 		crashed, crash, _, klog := lint(path, k)
 		if !crashed {
@@ -384,7 +435,7 @@ func (c *checker) oneCase(content []byte, mode os.FileMode, onlyK int, realAll b
 		c.r.Eval(1)
 		c.r.Add("crash_runs", 1)
 
-		state := dirState(dir)
+		state := memState(dir)
 		h := sha256.Sum256([]byte(strings.Join(state, "\n")))
 		c.states[hex.EncodeToString(h[:8])] = struct{}{}
 
@@ -397,7 +448,6 @@ func (c *checker) oneCase(content []byte, mode os.FileMode, onlyK int, realAll b
 		}
 
 		cells := c.judge(dir, path, content, formatted, formatOK, mode, k, "in-process", true, crash, klog)
-		_ = os.RemoveAll(dir)
 
 		// Real process exit: always for the configured subset, and for
 		// violating cases until each cell has its quota of confirmations.
@@ -423,7 +473,7 @@ func (c *checker) oneCase(content []byte, mode os.FileMode, onlyK int, realAll b
 		_ = os.RemoveAll(rdir)
 
 		if strings.Join(rstate, "\n") != strings.Join(state, "\n") {
-			report.Fatal("in-process crash and real process exit disagree at point %d of %q:\n in-process %q\n real-exit  %q", k, content, state, rstate)
+			report.Fatal("in-memory stop and real process exit on the real disk disagree at point %d of %q:\n in-memory %q\n real-exit %q", k, content, state, rstate)
 		}
 
 		c.r.Add("crash_states_confirmed_by_real_process_exit", 1)
@@ -501,10 +551,12 @@ func main() {
 
 	c := &checker{r: r, root: root, states: map[string]struct{}{}, quota: map[string]int{}}
 
+	vos.VerifMemFS(true) // the parent enumerates in memory; children use the real disk
+
 	r.Rule(fmt.Sprintf("every message file of 0..%d lines over the line alphabet %q with LF and with CRLF line ends x original mode bits %04o is rewritten by the real lintFile; the zero-crash run numbers the file-system operations (a write of >=2 bytes counts twice: before it and torn half-way) and every number is one crash case; distinct non-trivial = (content, mode, crash point) of a file that langlint actually rewrites", maxLines, lineAlphabet, modes))
 	r.Assume(
 		"a crash is a process stop: operations already issued are in the file system, later ones never happen (no power loss, no kernel reordering)",
-		"the in-process stop (panic + frozen shim) is checked against a real process exit for a subset and for every violating case up to 25 per cell; the two directory states must be identical",
+		"the enumeration runs on the shim's in-memory file system with an in-process stop (panic + frozen shim); it is checked against a real process exit on the real disk for a subset and for every violating case up to 25 per cell: the two directory states (names, modes, bytes) must be identical",
 		"files abandoned by the stopped run itself (temp file, .langlint-bak) are counted, not judged; judged are the target path and what a later successful run creates and leaves",
 		"the formatted content is what Format returns for the original bytes")
 
@@ -536,9 +588,15 @@ func main() {
 
 	for i, content := range all {
 		for mi, mode := range modes {
-			// Real process exit for every crash point of the short files (first
-			// mode), in thorough for every content (first mode).
-			realAll := mi == 0 && (r.Thorough() || bytes.Count(content, []byte("\n")) <= 1 || i%37 == 0)
+			// Real disk + real process exit for every crash point of the short
+			// files (<=1 line, thorough <=2) and of every 61st (thorough 193rd)
+			// content, in the first mode.
+			short, stride := 1, 61
+			if r.Thorough() {
+				short, stride = 2, 193
+			}
+
+			realAll := mi == 0 && (bytes.Count(content, []byte("\n")) <= short || i%stride == 0)
 			c.oneCase(content, mode, 0, realAll)
 		}
 
